@@ -343,9 +343,9 @@ def levelb_conv(ctx):
     routines of ImplMont: every digit string up to one digit beyond the double-width limit, every decimal string of <= 3 symbols."""
     inv = ["SliceOK", "HashOK", "StrOK", "RoundTripOK", "SetBitOK"]
     for m in ([13] if ctx.quick() else [9, 11, 13, 15]):
-        flow_levelb(ctx, "ImplConv", {"W": 1, "M": m, "MaxLen": 5}, inv, init="CInit", nxt="CNext")
+        flow_levelb(ctx, "ImplConv", {"W": 1, "M": m, "MaxLen": 5, "DROPCARRY": "FALSE"}, inv, init="CInit", nxt="CNext")
     for m in ([181] if ctx.quick() else [131, 181, 251]):
-        flow_levelb(ctx, "ImplConv", {"W": 2, "M": m, "MaxLen": 4}, inv, init="CInit", nxt="CNext")
+        flow_levelb(ctx, "ImplConv", {"W": 2, "M": m, "MaxLen": 4, "DROPCARRY": "FALSE"}, inv, init="CInit", nxt="CNext")
 
 
 def twist_file(ctx, npts):
@@ -810,6 +810,12 @@ def selftest():
     o, rc, dt = run_tlc("ImplSqrt", cfg=cfg, workers=2, timeout=600, tag="selftest")
     ok4 = "Invariant Fq2Complete is violated" in o
     results.append(("ImplSqrt with the pinned algorithm (FIXED = FALSE) violates Fq2Complete", ok4, {}))
+    cfg = f"{ctx.dir}/conv-dropcarry.cfg"
+    with open(cfg, "w") as f:
+        f.write("CONSTANTS W = 1\nM = 13\nMaxLen = 5\nDROPCARRY = TRUE\nINIT CInit\nNEXT CNext\nINVARIANTS SliceOK HashOK StrOK RoundTripOK SetBitOK\nCHECK_DEADLOCK FALSE\n")
+    o, rc, dt = run_tlc("ImplConv", cfg=cfg, workers=2, timeout=600, tag="selftest")
+    ok5 = "Invariant SliceOK is violated" in o or "Invariant HashOK is violated" in o
+    results.append(("ImplConv with divrem lacking the carry disjunct (DROPCARRY = TRUE) violates SliceOK/HashOK", ok5, {}))
     allok = True
     for name, ok, info in results:
         print(("PASS " if ok else "FAIL ") + name + " " + json.dumps(info))
